@@ -114,6 +114,11 @@ func cmdCheck(args []string) {
 	for _, e := range w.cs.Errors {
 		fmt.Fprintln(os.Stderr, "contract error:", e)
 	}
+	if len(w.cs.Errors) > 0 {
+		p := writeReplay("contract-files", map[string]interface{}{"obligation": "contract-files/parse", "errors": w.cs.Errors})
+		fmt.Printf("VIOLATION property=%s replay=%s no-failing-input-found\n", prop, p)
+		os.Exit(1)
+	}
 	known := loadKnown(filepath.Join(*verifDir, "known_findings.json"))
 
 	timeout, canaryT, agree := 40, 2, 1
